@@ -106,11 +106,11 @@ func (vm *VM) errIndexOutOfRange() runtimeError {
 
 // newPanic returns a new *PanicError with the given error message.
 func (vm *VM) newPanic(msg any) *PanicError {
-	return &PanicError{
-		message:  msg,
-		path:     vm.fn.InstructionInfo[vm.pc].Path,
-		position: vm.fn.InstructionInfo[vm.pc].Position,
+	info, ok := vm.fn.InstructionInfo[vm.pc-1]
+	if !ok || info.Path == "" {
+		info = vm.fn.InstructionInfo[vm.pc]
 	}
+	return &PanicError{message: msg, path: info.Path, position: info.Position}
 }
 
 // convertPanic converts a panic to an error.
